@@ -22,6 +22,7 @@ import (
 	"strconv"
 	"strings"
 	"sync"
+	"time"
 	"unicode"
 	"unicode/utf8"
 
@@ -132,7 +133,32 @@ func holderInit(n *pnode) interface{} {
 	if s := n.parent.structTypeOrNil(); s != nil && s.lib != "" && hasInit(s.rt) {
 		return libInit(s.lib, n.f.goName)
 	}
+	if n.parent.fromInit && n.parent.parent != nil {
+		// field of the entry the map's InitDefaults inserts
+		if field, v := mapInit(n.parent.parent.t.lib); field == n.f.goName {
+			return v
+		}
+	}
 	return nil
+}
+
+// inInitEntry: n is (inside) the map entry InitDefaults of the map type inserts.
+func inInitEntry(n *pnode) *pnode {
+	for a := n; a != nil; a = a.parent {
+		if a.fromInit {
+			return a
+		}
+	}
+	return nil
+}
+
+// inUnpackerStruct: n is a field of a struct type with an Unpack method.
+func inUnpackerStruct(n *pnode) bool {
+	if n.parent == nil || n.f == nil {
+		return false
+	}
+	s := n.parent.structTypeOrNil()
+	return s != nil && s.rt != nil && hasUnpack(s.rt)
 }
 
 func (n *pnode) structTypeOrNil() *tnode {
@@ -148,6 +174,11 @@ func enumerate(r *rand.Rand, top *pnode) []fault {
 		if n.parent == nil || n.f != nil && n.f.ignore || underDropped(n) {
 			return
 		}
+		if n.isElem && n.parent.t.vkey && !n.fromInit {
+			// the entry under a key the key type's Validate rejects
+			v := vtag{name: "Validate"}
+			out = append(out, fault{pos: n, validator: v, source: "config-key"}, fault{pos: n, validator: v, source: "default-key"})
+		}
 		if k, ok := n.leafKind(); ok {
 			vals := append([]vtag{}, n.vals()...)
 			d := domainOf(k, n.vals())
@@ -162,10 +193,14 @@ func enumerate(r *rand.Rand, top *pnode) []fault {
 					if nullable {
 						out = append(out, fault{pos: n, validator: v, source: "config-null"})
 					}
-					if nullable && k.base() == kString && n.t.k == kPtr {
-						// a pre-filled pointer to an EMPTY string / pattern, setting absent:
+					// zero / empty from the configuration
+					out = append(out, fault{pos: n, validator: v, source: "config", bad: canon(k, 0)})
+					if nullable {
+						// a pre-filled pointer (interface holding a pointer) to a ZERO number,
+						// an EMPTY string / pattern, the setting absent or an explicit null:
 						// neither set by the configuration nor "not empty"
-						out = append(out, fault{pos: n, validator: v, source: "default", bad: ""})
+						out = append(out, fault{pos: n, validator: v, source: "default", bad: canon(k, 0)},
+							fault{pos: n, validator: v, source: "default+config-null", bad: canon(k, 0)})
 					}
 				case "nonzero":
 					var bad interface{} = canon(k, 0)
@@ -188,14 +223,7 @@ func enumerate(r *rand.Rand, top *pnode) []fault {
 						// an explicit null as element: the element becomes the zero value
 						out = append(out, fault{pos: n, validator: v, source: "config-null"})
 					}
-					if nullable || n.isElem {
-						continue
-					}
 					one := tagOnly(k, v)
-					init := initValue(k)
-					if init == nil {
-						init = holderInit(n)
-					}
 					breaks := func(x interface{}) bool {
 						if v.name == "Validate" {
 							lo, hi, _, _ := intrinsic(k)
@@ -203,6 +231,19 @@ func enumerate(r *rand.Rand, top *pnode) []fault {
 							return f < lo || f > hi
 						}
 						return !one.okValue(x)
+					}
+					if n.isElem && n.fromInit {
+						// the entry InitDefaults of the map type inserts, not configured
+						if _, iv := mapInit(n.parent.t.lib); iv != nil && breaks(iv) {
+							out = append(out, fault{pos: n, validator: v, source: "initdefaults"})
+						}
+					}
+					if nullable || n.isElem {
+						continue
+					}
+					init := initValue(k)
+					if init == nil {
+						init = holderInit(n)
 					}
 					if init != nil {
 						if breaks(init) {
@@ -426,6 +467,13 @@ func inject(r *rand.Rand, n *pnode, f fault, useVars bool) bool {
 		return injectColl(n, f)
 	}
 	switch f.source {
+	case "config-key", "default-key":
+		if n.dropped || (f.source == "config-key") != n.inCfg || f.source == "default-key" && !n.inPre {
+			return false
+		}
+		n.key = "bad-" + n.key
+		n.seg, n.rseg = n.key, n.key
+		return true
 	case "config":
 		if n.isElem && !n.inCfg {
 			return false
@@ -448,7 +496,24 @@ func inject(r *rand.Rand, n *pnode, f fault, useVars bool) bool {
 		}
 		n.inCfg, n.cfgNull, n.viaVar = false, false, false
 		n.inPre, n.preVal = true, f.bad
+		if n.t.k == kIface && f.validator.name == "required" {
+			n.boxed = true // iface(*int): a plain zero in the interface is a different route
+		}
 		return ensurePre(n)
+	case "default+config-null":
+		if n.isElem {
+			return false
+		}
+		if n.parent.reified() {
+			k, _ := n.leafKind()
+			if n.t.k.scalar() && initValue(k) != nil || holderInit(n) != nil {
+				return false
+			}
+		}
+		n.inPre, n.preVal = true, f.bad
+		n.boxed = n.t.k == kIface
+		n.inCfg, n.cfgNull, n.viaVar = true, true, false
+		return ensurePre(n) && ensureCfg(n)
 	case "absent":
 		if n.isElem {
 			return false
@@ -471,6 +536,14 @@ func inject(r *rand.Rand, n *pnode, f fault, useVars bool) bool {
 		n.inCfg, n.cfgNull = true, true
 		return ensureCfg(n)
 	case "initdefaults":
+		if e := inInitEntry(n); e != nil {
+			// the entry of the map's InitDefaults: the configuration leaves the
+			// position (or, one time in two, the whole entry) alone
+			if e == n || r.Intn(2) == 0 {
+				stripCfg(e)
+				return true
+			}
+		}
 		n.clear()
 		return ensureCfg(n)
 	}
@@ -864,6 +937,39 @@ func (check) Run(seed int64, tier string, idx int, verbose bool) harness.Result 
 			res.Ev("unpacker_typed_positions", 1)
 			res.SetAdd("unpacker_position", kindNames[n.t.k]+"@"+n.shape+":"+n.source())
 		}
+		if n.t.k == kMap {
+			if _, iv := mapInit(n.t.lib); iv != nil {
+				res.Ev("maps_with_initdefaults", 1)
+				st := "initdefaults-not-run"
+				for _, k := range n.kids {
+					if k.fromInit {
+						st = "entry-" + k.source()
+					}
+				}
+				res.SetAdd("init_map_state", n.t.lib+":"+collState(n)+":"+st)
+			}
+			if n.t.vkey {
+				res.Ev("maps_with_validating_key_type", 1)
+			}
+		}
+		if n.cycle > 0 {
+			res.Ev("cyclic_prefilled_defaults", 1)
+			res.SetAdd("cycle", strconv.Itoa(n.cycle)+":"+n.sshape+":"+n.source())
+		}
+		if n.t.k == kIface && n.t.prt != nil {
+			res.SetAdd("pointer_to_interface", n.source()+":"+n.sshape)
+		}
+		if n.boxed {
+			res.Ev("interfaces_holding_pointer_to_number", 1)
+		}
+		if k, ok := n.leafKind(); ok && k == kDur {
+			for _, v := range n.vals() {
+				if beyondParam(k, v) {
+					res.Ev("positions_with_duration_bound_beyond_range", 1)
+					res.SetAdd("duration_bound_beyond_range", v.name+"="+v.param+":"+n.source())
+				}
+			}
+		}
 		if k, ok := n.leafKind(); ok {
 			src := n.source()
 			if src == "absent" && n.parent.reified() && (n.t.k.scalar() && initValue(k) != nil || holderInit(n) != nil) {
@@ -969,7 +1075,10 @@ func (check) Run(seed int64, tier string, idx int, verbose bool) harness.Result 
 				return "validator-tag-option:validators-of-the-other-tag-name-applied:invalid-accepted"
 			}
 		}
-		if n != nil && unpackerPosition(n) && !strings.HasPrefix(dflt, "null-element") && !(shape == "double-pointer-field" && source == "default") {
+		if n != nil && inUnpackerStruct(n) && validator != "Validate" {
+			return "field-tag-inside-unpacker-struct-not-validated:" + validator + ":" + source + ":" + shape
+		}
+		if n != nil && unpackerPosition(n) && !strings.HasPrefix(dflt, "null-element") && !strings.HasPrefix(dflt, "map-key") && !strings.HasPrefix(dflt, "initdefaults-map-entry") && !(shape == "double-pointer-field" && source == "default") {
 			what := "tag"
 			if validator == "Validate" {
 				what = "Validate"
@@ -1132,7 +1241,7 @@ func (check) Run(seed int64, tier string, idx int, verbose bool) harness.Result 
 		}
 		repath(variant)
 		source := f.source
-		if n.viaVar {
+		if n.viaVar && source == "config" {
 			source = "varexp"
 		}
 		if f.emptyColl != nil {
@@ -1191,9 +1300,31 @@ func (check) Run(seed int64, tier string, idx int, verbose bool) harness.Result 
 			}
 		}
 		switch shape {
-		case "double-pointer-field", "pointer-to-collection", "inline-map":
+		case "double-pointer-field", "pointer-to-collection", "inline-map", "pointer-to-interface":
 			res.Ev("fault_variants_at_"+shape, 1)
 			res.SetAdd("fault_at_"+shape, fid+"("+kindNames[n.t.k]+")")
+		}
+		if e := inInitEntry(n); e != nil {
+			res.Ev("fault_variants_at_entry_of_map_initdefaults", 1)
+			res.SetAdd("fault_at_init_map_entry", e.parent.t.lib+":"+fid+":"+collState(e.parent))
+		}
+		if strings.HasSuffix(source, "-key") {
+			res.Ev("fault_variants_map_key_rejected_by_its_validate", 1)
+		}
+		if inUnpackerStruct(n) {
+			res.Ev("fault_variants_at_tagged_field_of_unpacker_struct", 1)
+			res.SetAdd("fault_in_unpacker_struct", fid)
+		}
+		if beyondParam(kDur, f.validator) {
+			if lk, ok := n.leafKind(); ok && lk == kDur {
+				res.Ev("fault_variants_against_duration_bound_beyond_range", 1)
+			}
+		}
+		if f.validator.name == "required" && (strings.HasPrefix(source, "default") || source == "config" || source == "varexp") {
+			if lk, ok := n.leafKind(); ok {
+				res.Ev("fault_variants_required_zero_or_empty_value", 1)
+				res.SetAdd("required_zero", kindClass(lk)+":"+source+":"+shape)
+			}
 		}
 		if source == "config-null" && n.isElem {
 			res.Ev("fault_variants_null_element", 1)
@@ -1233,11 +1364,25 @@ func (check) Run(seed int64, tier string, idx int, verbose bool) harness.Result 
 					seen = true
 					sig := "completeness:" + fid
 					lk, isLeaf := n.leafKind()
-					if isLeaf && (shape == "pointer-field" || shape == "interface-field" || shape == "double-pointer-field") {
+					if isLeaf && (shape == "pointer-field" || shape == "interface-field" || shape == "double-pointer-field" || shape == "pointer-to-interface") {
 						sig += ":" + kindClass(lk)
 					}
 					tagV := f.validator.name == "min" || f.validator.name == "max" || f.validator.name == "positive"
 					switch {
+					case source == "initdefaults" && inInitEntry(n) != nil:
+						m := inInitEntry(n).parent
+						others, target := "no-other-key-configured", "target-map-empty"
+						for _, k := range m.kids {
+							if k.inCfg && !k.fromInit {
+								others = "other-keys-configured"
+							}
+							if k.inPre {
+								target = "target-map-prefilled"
+							}
+						}
+						sig = "initdefaults-map-entry-not-validated:" + f.validator.name + ":" + others + ":" + target
+					case strings.HasSuffix(source, "-key"):
+						sig = "map-key-not-validated:Validate:" + strings.TrimSuffix(source, "-key")
 					case source == "config-null" && n.isElem:
 						sig = "null-element-not-validated:" + f.validator.name + ":" + shape
 					case prefilledMapEntry(n) && shape != "pointer-to-collection" && shape != "inline-map" && shape != "double-pointer-field" && !(isLeaf && lk == kRegexp):
@@ -1334,11 +1479,14 @@ func (check) Run(seed int64, tier string, idx int, verbose bool) harness.Result 
 
 func canonVal(v reflect.Value) string {
 	var b strings.Builder
-	canonInto(&b, v)
+	canonSeen(&b, v, map[uintptr]bool{})
 	return b.String()
 }
 
-func canonInto(b *strings.Builder, v reflect.Value) {
+func canonInto(b *strings.Builder, v reflect.Value) { canonSeen(b, v, map[uintptr]bool{}) }
+
+func canonSeen(b *strings.Builder, v reflect.Value, seen map[uintptr]bool) {
+	canonInto := func(b *strings.Builder, v reflect.Value) { canonSeen(b, v, seen) }
 	switch v.Kind() {
 	case reflect.Ptr, reflect.Interface:
 		if v.IsNil() {
@@ -1346,6 +1494,11 @@ func canonInto(b *strings.Builder, v reflect.Value) {
 			return
 		}
 		if v.Kind() == reflect.Ptr {
+			if seen[v.Pointer()] {
+				b.WriteString("&<cycle>")
+				return
+			}
+			seen[v.Pointer()] = true
 			b.WriteByte('&')
 		}
 		canonInto(b, v.Elem())
@@ -1435,6 +1588,13 @@ func declaresAlt(t *tnode) bool {
 // edgeSuffix qualifies a signature when the value involved lies at the edge of
 // its kind's range or is judged against a bound that does.
 func edgeSuffix(v interface{}, vals []vtag) string {
+	if _, isDur := v.(time.Duration); isDur {
+		for _, t := range vals {
+			if beyondParam(kDur, t) {
+				return ":duration-bound-beyond-range"
+			}
+		}
+	}
 	for _, t := range vals {
 		if isEdge(t.param) {
 			return ":bound-at-the-edge-of-the-kind"
